@@ -14,6 +14,7 @@ import CelloProofs.Lemmas.Disp
 import CelloProofs.Lemmas.DispConc
 import CelloProofs.Lemmas.DispWorld
 import CelloProofs.Lemmas.DispSolo
+import CelloProofs.Lemmas.DispLive
 
 namespace Cello.Dispatch
 
@@ -230,6 +231,14 @@ theorem C08_cast_exact (w : World) (n : Nat) (hs : SlotsOK w.slots n) (D : Strin
                  else .raised (thrown .ValueError [w.isSentinel tid, w.isSentinel ty])) :=
   castW_spec w n hs D tid ty t hget h castCls hm
 
+/-- the same known finding seen through `cast`: casting an object to the type `Terminal` (or an object of type `Terminal`
+    to anything else) raises FormatError in place of ValueError -/
+theorem C08_cast_terminal_refuted :
+    let w : World := { slots := slotsNow, theType := 0,
+                       types := [(1, mkType CelloGen.Disp.cacheNum false [] true), (2, mkType CelloGen.Disp.cacheNum false [])] }
+    (castW ⟨0, "Cast"⟩ w (.obj .good 2) 1).2 = .raised .FormatError ∧
+    (castW ⟨0, "Cast"⟩ w (.obj .good 2) 2).2 = .ok .self := by decide
+
 /-- a NULL, freed or foreign `self` is refused with ValueError by every object-level lookup and by cast, before any
     lookup happens; a well-formed object that is not a type object is refused with TypeError by `Type_Scan`. -/
 theorem C08_bad_self (w : World) (cls castCls : Cls) (tid ty : Nat) :
@@ -270,6 +279,42 @@ theorem C08_concurrent (slots : List (Nat × Cls)) (n : Nat) (hs : SlotsOK slots
   refine ⟨ht.2, ?_⟩
   intro hst
   exact ht.1 _ hst
+
+/-- **Completion.** If the schedule gives every thread at least `(2·n + 10)` steps per lookup of its program (in any
+    order, interleaved with the others in any way), then at the end every thread has completed all its lookups — and, by
+    `C08_concurrent`, every result is the declared instance. No lookup can be delayed or starved by the other threads. -/
+theorem C08_concurrent_complete (slots : List (Nat × Cls)) (n : Nat) (hs : SlotsOK slots n)
+    (D : String → Option Inst) (t : TypeRec) (h : Inv D slots n t)
+    (progs : List (List (Bool × Cls))) (sched : List Nat)
+    (hfair : ∀ tid p, progs[tid]? = some p → p.length * (2 * t.entries.length + 10) ≤ sched.count tid) :
+    let s := runSched slots { shared := t, threads := progs.map Thread.new } sched
+    ∀ th ∈ s.threads, th.finished = true ∧ ∀ p ∈ th.log, p.2 = D p.1.name := by
+  intro s th hth
+  have hc := C08_concurrent slots n hs D t h progs sched
+  refine ⟨?_, (hc.2.2.2 th hth).1⟩
+  obtain ⟨tid, htid⟩ := List.getElem?_of_mem hth
+  have hlt : tid < progs.length := by
+    have : tid < s.threads.length := by
+      rcases Nat.lt_or_ge tid s.threads.length with h' | h'
+      · exact h'
+      · simp [List.getElem?_eq_none h'] at htid
+    rw [hc.2.2.1] at this; exact this
+  have h0 : SysOK D slots n { shared := t, threads := progs.map Thread.new } := by
+    refine ⟨h, ?_⟩
+    intro th hth
+    simp only [List.mem_map] at hth
+    obtain ⟨p, _, rfl⟩ := hth
+    exact ⟨by intro pc hpc; simp [Thread.new] at hpc, by intro p hp; simp [Thread.new] at hp⟩
+  have hinit : ({ shared := t, threads := progs.map Thread.new } : Sys).threads[tid]? = some (Thread.new progs[tid]) := by
+    simp [List.getElem?_map, List.getElem?_eq_getElem hlt]
+  have hmeas : thMeasure t.entries.length (Thread.new progs[tid]) ≤ sched.count tid := by
+    have := hfair tid progs[tid] (List.getElem?_eq_getElem hlt)
+    simpa [thMeasure, Thread.new] using this
+  obtain ⟨th', hth', hfin⟩ := sched_progress hs sched _ h0 rfl tid _ hinit hmeas
+  have : th' = th := by
+    have e : some th' = some th := by rw [← hth', ← htid]
+    exact Option.some.inj e
+  rw [← this]; exact hfin
 
 /-- **Wait-freedom.** Each atomic step of a lookup strictly decreases a measure that depends only on the thread's own
     state and the number of triples, whatever the shared object contains: a lookup finishes within `2·n + 8` of its own
